@@ -1037,6 +1037,24 @@ class Interp:
             r = self.hooks(self, n, kind, name, did, obj, args, env)
             if r is not NotImplemented:
                 return r
+        if kind == 'function' and name in ('isprint', 'isspace', 'isalpha', 'isalnum', 'isdigit', 'isxdigit', 'isupper', 'islower', 'ispunct',
+                                           'isgraph', 'iscntrl', 'toupper', 'tolower') and len(args) == 1:
+            # <cctype>: the argument must be representable as unsigned char or equal EOF, otherwise the behaviour is undefined
+            # (glibc indexes a table with it: a strongly negative value is a wild read)
+            v = self.expr(args[0], env)
+            if isinstance(v, IV) and (v.lo < -1 or v.hi > 255):
+                self.ub_event('ctype-argument-out-of-range(%s)' % name, n)
+                return const(32, True, 0)
+            if isinstance(v, IV) and v.concrete():
+                ch_ = chr(v.lo) if 0 <= v.lo < 128 else ''
+                tbl = {'isprint': ch_.isprintable() and ch_ != '', 'isspace': ch_ in ' \t\n\r\v\f' and ch_ != '', 'isalpha': ch_.isalpha(), 'isalnum': ch_.isalnum(),
+                       'isdigit': ch_.isdigit(), 'isxdigit': ch_ in '0123456789abcdefABCDEF' and ch_ != '', 'isupper': ch_.isupper(), 'islower': ch_.islower(),
+                       'ispunct': ch_ != '' and ch_.isprintable() and not ch_.isalnum() and ch_ != ' ', 'isgraph': ch_ != '' and ch_.isprintable() and ch_ != ' ',
+                       'iscntrl': ch_ != '' and not ch_.isprintable()}
+                if name in tbl:
+                    return const(32, True, 1 if tbl[name] else 0)
+                return const(32, True, ord(ch_.upper() if name == 'toupper' else ch_.lower()) if ch_ else v.lo)
+            raise NeedSplit(None, 'character class of a non-concrete value at %s' % pos(n))
         if kind == 'function' and name == '__errno_location' and not args:
             # errno: one int cell per interpreter (library calls that fail are modelled by the client hooks, which may set it)
             if not hasattr(self, 'errno_cell'):
